@@ -26,6 +26,8 @@ type HarnessRun struct {
 	Files    []string // relative to /verif/harness
 	SymFiles []string // additional files for the symbolic side only (bodyless package-specific API)
 	NatFiles []string // additional files for the native replay only (the same API with bodies)
+	APIs     []string // extra API templates (harness/api/api_<name>_{sym,native}.go.tmpl)
+	Solver   string
 	Entry    string
 	Params   map[string]int
 	Unwind   int
@@ -111,6 +113,7 @@ type replayTape struct {
 	Kind     string         `json:"kind"`
 	Msg      string         `json:"msg"`
 	Runs     int            `json:"runs,omitempty"`
+	APIs     []string       `json:"apis,omitempty"`
 }
 
 type replayOutcome struct {
@@ -160,6 +163,11 @@ func nativeReplay(repo string, tape *replayTape, tapePath string) replayOutcome 
 	}
 	if err := gen("api_native_rt.go.tmpl", "zz_verif_api_rt.go"); err != nil {
 		return replayOutcome{Outcome: "builderror", Detail: err.Error()}
+	}
+	for _, a := range tape.APIs {
+		if err := gen("api_"+a+"_native.go.tmpl", "zz_verif_api_"+a+".go"); err != nil {
+			return replayOutcome{Outcome: "builderror", Detail: err.Error()}
+		}
 	}
 	var tb strings.Builder
 	fmt.Fprintf(&tb, "package %s\n\nimport (\n\t\"os\"\n\t\"testing\"\n)\n\nvar verifEntries = map[string]func(){\n", tape.PkgName)
@@ -256,7 +264,7 @@ func cmdCheck(args []string) int {
 	inconclusive := []string{}
 	engines := map[string]*Engine{}
 	for _, run := range def.Runs(tier) {
-		key := run.Pkg + "|" + strings.Join(run.Files, ",")
+		key := run.Pkg + "|" + strings.Join(run.Files, ",") + "|" + strings.Join(run.SymFiles, ",") + "|" + strings.Join(run.APIs, ",")
 		eng := engines[key]
 		if eng == nil {
 			var files []string
@@ -267,6 +275,12 @@ func cmdCheck(args []string) int {
 			if err != nil {
 				fmt.Fprintln(os.Stderr, "overlay:", err)
 				return 2
+			}
+			for _, a := range run.APIs {
+				if err := addAPITemplate(ov, repo, run.Pkg, run.PkgName, a, true); err != nil {
+					fmt.Fprintln(os.Stderr, "overlay:", err)
+					return 2
+				}
 			}
 			pat := "./" + run.Pkg
 			if run.Pkg == "" {
@@ -294,6 +308,9 @@ func cmdCheck(args []string) int {
 		}
 		if run.Timeout > 0 {
 			ex.timeout = run.Timeout
+		}
+		if run.Solver != "" {
+			ex.solver = run.Solver
 		}
 		if run.Deadline > 0 {
 			ex.deadline = time.Now().Add(run.Deadline)
@@ -346,7 +363,7 @@ func cmdCheck(args []string) int {
 				continue
 			}
 			tape := &replayTape{Property: id, Harness: rr.run.Entry, Pkg: rr.run.Pkg, PkgName: rr.run.PkgName, Files: append(append([]string{}, rr.run.Files...), rr.run.NatFiles...),
-				Params: rr.run.Params, Draws: v.Draws, Expect: v.Label, Kind: v.Kind, Msg: v.Msg, Runs: rr.run.ReplayRuns}
+				Params: rr.run.Params, Draws: v.Draws, Expect: v.Label, Kind: v.Kind, Msg: v.Msg, Runs: rr.run.ReplayRuns, APIs: rr.run.APIs}
 			name := fmt.Sprintf("%s-%s-%s.json", id, rr.run.Name, sanitize(v.Label))
 			tapePath := filepath.Join(verifRoot(), "replays", name)
 			data, _ := json.MarshalIndent(tape, "", " ")
